@@ -3,6 +3,7 @@ package main
 import (
 	"bufio"
 	"bytes"
+	"fmt"
 	"io"
 	"math/rand"
 	"sync"
@@ -61,6 +62,19 @@ func newRunObj(s *Script, rec *Rec, run string, op map[string]any) *runObj {
 	if p == nil {
 		return nil
 	}
+	if boolean(op["fromreported"]) {
+		// a second parser from the configuration the first one reports
+		var p2 lz.Parser
+		var err error
+		if !rec.Call("newparser", func() { p2, err = p.ParserConfig().NewParser() }) {
+			return nil
+		}
+		if err != nil || p2 == nil {
+			rec.Emit(Event{"op": "panic", "in": "newparser", "msg": "NewParser of a reported configuration failed: " + fmt.Sprint(err)})
+			return nil
+		}
+		p = p2
+	}
 	return &runObj{pd: &pdrv{p: p, rec: rec, run: run}}
 }
 
@@ -97,10 +111,20 @@ func execRun(s *Script, rec *Rec, ops []map[string]any) {
 
 // noise keeps other parser and decoder instances busy while the compared
 // runs execute (distinct instances must not influence each other).
-func noise(stop <-chan struct{}, seed int64, wg *sync.WaitGroup) {
+func noise(stop <-chan struct{}, seed int64, wg *sync.WaitGroup, own lz.ParserConfig, failed *string, mu *sync.Mutex) {
 	defer wg.Done()
+	defer func() {
+		// a parser or decoder that fails only because other instances are
+		// active breaks the independence of instances as well
+		if x := recover(); x != nil {
+			mu.Lock()
+			*failed = fmt.Sprint(x)
+			mu.Unlock()
+		}
+	}()
 	r := rand.New(rand.NewSource(seed))
 	cfgs := []lz.ParserConfig{
+		own, own,
 		&lz.HPConfig{InputLen: 3, HashBits: 8, BufferSize: 512, WindowSize: 256, BlockSize: 64},
 		&lz.BDHPConfig{InputLen1: 3, HashBits1: 8, InputLen2: 5, HashBits2: 8, BufferSize: 512, WindowSize: 256, BlockSize: 64},
 		&lz.BUPConfig{InputLen: 3, HashBits: 6, BucketSize: 2, BufferSize: 512, WindowSize: 256, BlockSize: 64},
@@ -132,6 +156,9 @@ func noise(stop <-chan struct{}, seed int64, wg *sync.WaitGroup) {
 			d.WriteBlock(blk)
 		}
 		d.Flush()
+		if !bytes.Equal(out.Bytes(), data) {
+			panic("noise: round trip of an independent instance failed while other instances were active")
+		}
 	}
 }
 
@@ -159,12 +186,15 @@ func runTwoRun(s *Script, rec *Rec) {
 	execRun(s, rec, runs[0])
 	rest := runs[1:]
 	bufs := make([]*bytes.Buffer, len(rest))
+	var noiseFailed string
+	var nmu sync.Mutex
 	ok := rec.Call("concurrent", func() {
 		stop := make(chan struct{})
 		var nwg sync.WaitGroup
 		for i := 0; i < 3; i++ {
 			nwg.Add(1)
-			go noise(stop, int64(i)+num(s.Cfg["nseed"]), &nwg)
+			own := newConfig(kind, s.Cfg)
+			go noise(stop, int64(i)+num(s.Cfg["nseed"]), &nwg, own, &noiseFailed, &nmu)
 		}
 		var wg sync.WaitGroup
 		sem := make(chan struct{}, conc)
@@ -185,6 +215,10 @@ func runTwoRun(s *Script, rec *Rec) {
 		nwg.Wait()
 	})
 	if !ok {
+		return
+	}
+	if noiseFailed != "" {
+		rec.Emit(Event{"op": "panic", "in": "independent instance", "msg": noiseFailed})
 		return
 	}
 	rec.mu.Lock()
@@ -399,7 +433,37 @@ func genTwoRunConc(seed int64, n int, tier string) []Script {
 	return out
 }
 
+// genTwoRunCfg: a parser and a parser built from its reported configuration.
+func genTwoRunCfg(seed int64, n int, tier string) []Script {
+	r := rand.New(rand.NewSource(seed))
+	var out []Script
+	for i := 0; i < n; i++ {
+		kind := parserKinds[i%len(parserKinds)]
+		cfg := genParserCfg(r, kind, 200)
+		// leave more fields to the defaults than the general generator does
+		for _, k := range []string{"ShrinkSize", "WindowSize", "BlockSize", "HashBits", "HashBits1", "HashBits2",
+			"InputLen", "MinMatchLen", "MaxMatchLen", "BucketSize"} {
+			if _, ok := cfg[k]; ok && r.Intn(3) == 0 {
+				cfg[k] = 0
+			}
+		}
+		cfg["mode"] = "cfg"
+		B := int(num(cfg["BufferSize"]))
+		data, class := genInput(r, 30+r.Intn(370))
+		suf := suffixOps(r, data, B)
+		var ops []map[string]any
+		ops = append(ops, map[string]any{"op": "run", "run": "R"}, map[string]any{"op": "sync"})
+		ops = append(ops, suf...)
+		ops = append(ops, map[string]any{"op": "run", "run": "X1", "fromreported": true}, map[string]any{"op": "sync"})
+		ops = append(ops, suf...)
+		out = append(out, Script{Tid: "tworun-cfg-" + itoa(seed) + "-" + itoa(int64(i)), Comp: "tworun",
+			Cfg: cfg, Ops: ops, Tags: []string{"go", kind, "cfg", class}})
+	}
+	return out
+}
+
 func init() {
+	generators["tworun-cfg"] = genTwoRunCfg
 	components["tworun"] = runTwoRun
 	generators["tworun-reset"] = genTwoRunReset
 	generators["tworun-chunk"] = genTwoRunChunk
